@@ -818,6 +818,7 @@ const (
 	tagExOver    = "C29-expire-overflow" // EX/PX large enough to overflow time.Duration
 	tagHot       = "C29-hotkey-throttle" // >=128 writes to one key within 2 s are refused
 	tagPxatSub   = "C29-pxat-subsecond" // PXAT 1..999 refused
+	tagEmptyBulk = "C29-empty-value"    // GET of a key holding "" answers nil
 )
 
 var (
@@ -836,6 +837,43 @@ var (
 type vfGen struct {
 	t        *rapid.T
 	excluded int
+	m        *vfModel // state reached by the commands generated so far (drives exclusion by construction)
+}
+
+// vfLenientForm: accepted by strconv.ParseInt but not by Redis' string2ll.
+func vfLenientForm(v []byte) bool {
+	if _, ok := vfString2ll(v); ok {
+		return false
+	}
+	_, err := strconv.ParseInt(string(v), 10, 64)
+	return err == nil
+}
+
+// counterKey draws the key of an INCR-family command.  While C29-incr-empty /
+// C29-lenient-int are open, keys currently holding a blank / leniently-integer
+// value are avoided (nil = no suitable key).
+func (g *vfGen) counterKey() []byte {
+	bad := func(k string) bool {
+		v, ok := g.m.m[k]
+		if !ok {
+			return false
+		}
+		if pbt.Open(tagIncrEmpty) && len(bytes.TrimSpace(v)) == 0 {
+			return true
+		}
+		return pbt.Open(tagLenient) && vfLenientForm(v)
+	}
+	k := g.key()
+	if !bad(string(k)) {
+		return k
+	}
+	g.excluded++
+	for _, alt := range vfKeys {
+		if !bad(alt) {
+			return []byte(alt)
+		}
+	}
+	return nil
 }
 
 // uni draws 0..n-1 (near-)uniformly from unbiased bits: rapid's integer and
@@ -888,10 +926,9 @@ func (g *vfGen) intish(label string) []byte {
 // value draws a value to store.
 func (g *vfGen) value() []byte {
 	v := g.value0()
-	if len(bytes.TrimSpace(v)) == 0 && pbt.Open(tagIncrEmpty) {
-		// blank values are ordinary strings for GET/SET, but INCR on them is finding C29-incr-empty
+	if len(v) == 0 && pbt.Open(tagEmptyBulk) {
 		g.excluded++
-		return []byte("x")
+		return []byte(" ")
 	}
 	return v
 }
@@ -905,10 +942,6 @@ func (g *vfGen) value0() []byte {
 	case 5:
 		return []byte(g.pick("val-blank", vfBlank))
 	case 6:
-		if pbt.Open(tagLenient) {
-			g.excluded++
-			return []byte("5")
-		}
 		return []byte(g.pick("val-lenient", vfLenient))
 	case 7:
 		return rapid.SliceOfN(rapid.Byte(), 1, 24).Draw(g.t, "val-bytes")
@@ -1016,14 +1049,20 @@ func (g *vfGen) command() [][]byte {
 		return argv
 	case w < 68:
 		return append([][]byte{g.caseName("EXISTS")}, g.keys(1, 4)...)
-	case w < 78:
-		return [][]byte{g.caseName("INCR"), g.key()}
-	case w < 86:
-		return [][]byte{g.caseName("DECR"), g.key()}
-	case w < 98:
-		return [][]byte{g.caseName("INCRBY"), g.key(), g.delta(false)}
 	case w < 110:
-		return [][]byte{g.caseName("DECRBY"), g.key(), g.delta(true)}
+		k := g.counterKey()
+		if k == nil {
+			return [][]byte{g.caseName("GET"), g.key()}
+		}
+		switch {
+		case w < 78:
+			return [][]byte{g.caseName("INCR"), k}
+		case w < 86:
+			return [][]byte{g.caseName("DECR"), k}
+		case w < 98:
+			return [][]byte{g.caseName("INCRBY"), k, g.delta(false)}
+		}
+		return [][]byte{g.caseName("DECRBY"), k, g.delta(true)}
 	case w < 114:
 		switch g.uni("ping-shape", 4) {
 		case 0:
@@ -1072,11 +1111,13 @@ func (g *vfGen) wrongArity() [][]byte {
 }
 
 func vfGen29(t *rapid.T) vfCase29 {
-	g := &vfGen{t: t}
+	g := &vfGen{t: t, m: vfNewModel()}
 	var c vfCase29
 	n := rapid.IntRange(4, 40).Draw(t, "len")
 	for i := 0; i < n; i++ {
-		c.Cmds = append(c.Cmds, g.command())
+		argv := g.command()
+		g.m.apply(argv)
+		c.Cmds = append(c.Cmds, argv)
 	}
 	if rapid.IntRange(0, 7).Draw(t, "quit") == 0 {
 		c.Cmds = append(c.Cmds, [][]byte{g.caseName("QUIT")})
@@ -1128,7 +1169,7 @@ func vfStatic29() []vfCase29 {
 		out = append(out, seq(cmd("PING", "a", "b"), cmd("PING", "")))
 	}
 	if !pbt.Open(tagIncrEmpty) {
-		out = append(out, seq(cmd("SET", "k1", ""), cmd("GET", "k1"), cmd("INCR", "k1"), cmd("SET", "k2", " "), cmd("DECRBY", "k2", "1")))
+		out = append(out, seq(cmd("SET", "k1", "  "), cmd("GET", "k1"), cmd("INCR", "k1"), cmd("SET", "k2", " "), cmd("DECRBY", "k2", "1"), cmd("SET", "a:b", "\r\n"), cmd("INCRBY", "a:b", "5")))
 	}
 	if !pbt.Open(tagLenient) {
 		out = append(out, seq(cmd("SET", "k1", "+5"), cmd("INCR", "k1"), cmd("SET", "k2", "007"), cmd("INCR", "k2"), cmd("INCRBY", "ctr", "+1"), cmd("SET", "k1", "v", "EX", "+100000")))
@@ -1140,6 +1181,9 @@ func vfStatic29() []vfCase29 {
 		c := seq(cmd("SET", "k1", "v", "EX", "18446744073"), cmd("SET", "k2", "v", "PX", "18446744073709"), cmd("SET", "a:b", "v", "EX", "9223372037"), cmd("MGET", "k1", "k2", "a:b"))
 		c.SleepMs = 2300
 		out = append(out, c)
+	}
+	if !pbt.Open(tagEmptyBulk) {
+		out = append(out, seq(cmd("SET", "k1", ""), cmd("GET", "k1"), cmd("EXISTS", "k1"), cmd("MGET", "k1", "k2"), cmd("ECHO", ""), cmd("SET", "k1", "x", "NX")))
 	}
 	if !pbt.Open(tagPxatSub) {
 		out = append(out, seq(cmd("SET", "k1", "v", "PXAT", "1"), cmd("GET", "k1"), cmd("SET", "k2", "v"), cmd("SET", "k2", "w", "PXAT", "999"), cmd("GET", "k2")))
